@@ -108,7 +108,22 @@ func (cs *cmpSpec) tokenSig(src []byte, s, r []Tok, i, j int) (string, string) {
 			}
 			return "*"
 		}
-		return fmt.Sprintf("first-divergence: prev=%s %s=%s %s=%s", prev, cs.subj, other(sk), cs.ref, other(rk)), detail
+		// one side inserts the semicolon in front of a comment run of the shape /* */ ... # : the look-ahead
+		// findLineEnd of the other side does not know # comments (one root cause, told apart structurally)
+		run := ""
+		withSemi, k := r, j
+		if sk == ";auto" {
+			withSemi, k = s, i
+		}
+		if k+1 < len(withSemi) && withSemi[k+1].Kind == "COMMENT" && commentOpener(src, withSemi[k+1].Off) == "/*" {
+			for m := k + 2; m < len(withSemi) && withSemi[m].Kind == "COMMENT"; m++ {
+				if strings.HasPrefix(commentOpener(src, withSemi[m].Off), "#") {
+					run = " before=/*+#"
+					break
+				}
+			}
+		}
+		return fmt.Sprintf("first-divergence: prev=%s %s=%s %s=%s%s", prev, cs.subj, other(sk), cs.ref, other(rk), run), detail
 	}
 	// one root cause (scanNumber reads the identifier that follows a number as a suffix): the letters are a
 	// unit where the reference sees an identifier / keyword, or, if they start with i, an imaginary suffix
